@@ -11,12 +11,14 @@ from harness.core import CHECKS  # noqa
 TABLE = {
     "C20": dict(
         category="exploration", design_ref="3/C20",
-        technique="harness-owned thread schedules (sys.settrace line-level scheduler: every single-preemption interleaving of operation pairs sharing an object, sampled 2-3 preemption schedules), Hypothesis-generated sequential call histories in forked children, multi-thread stress; oracle = outcome in isolation (computed in pristine forked processes) + shared-state invariants",
-        text="Per quick run ~31 000 deterministic two-thread schedules over 22 core operations (all single-preemption points for the ~250 ordered pairs that share a lazily initialised key, key set or "
-             "built-in algorithm object, 6 points for the others, plus ~1000 sampled multi-preemption schedules), 1500 generated sequential histories of 2-12 operations from a pool of 33 (each in a "
-             "forked child so that recorded histories are self-contained), and ~70 stress rounds of 8-24 threads under a 1 us switch interval. Every call must give the outcome it gives in "
-             "isolation (accept/reject, exception class, recovered content, produced token valid under the reference), and every key of every key set must still have kid == thumbprint. The "
-             "thorough tier enumerates every single-preemption schedule of every ordered pair of all 33 operations.",
+        technique="harness-owned thread schedules (sys.settrace line-level scheduler: every single-preemption interleaving and alternating many-preemption schedules for operation pairs sharing an object, sampled 2-3 preemption schedules), Hypothesis-generated sequential call histories in forked children, multi-thread stress; oracle = outcome in isolation (computed in pristine forked processes) + shared-state invariants + freshness of produced IVs / salts / ephemeral keys",
+        text="Per quick run ~10^5 deterministic two-thread schedules over a core set of ~57 operations (sign / verify / encrypt / decrypt in every family incl. compressed, JSON, ECDH-1PU and GCMKW messages, key set "
+             "operations, exports, thumbprints, per-call allow-lists, caller registries, keys sharing one parameters dict): every single-preemption point plus alternating schedules for the ordered pairs that share a "
+             "lazily initialised key, a key set, a registry or a built-in algorithm object, 2-3 preemption points for the other pairs, plus sampled multi-preemption schedules; generated sequential histories of "
+             "2-12 operations from a pool of 72 (each in a forked child so that recorded histories are self-contained), and stress rounds of 8-24 threads under a 1 us switch interval. Every call must give the "
+             "outcome it gives in isolation (accept/reject, exception class, recovered content, produced token valid under the reference), both calls repeated after the interleaving still behave as in isolation, "
+             "no IV / key-wrap IV / salt / ephemeral key occurs twice, and every key of every key set must still have kid == thumbprint. The thorough tier enumerates every single-preemption schedule of every "
+             "ordered pair of all operations.",
         note="interleavings at Python-line granularity inside joserfc only; C-level races and free-threaded builds are out of reach; the stress part is a non-deterministic supplement",
     ),
     "C18": dict(
